@@ -213,6 +213,8 @@ CLASSES3["FilesInfo"] = {"files": "list:FileEntry", "emptyfiles": "boollist"}
 CLASSES3["SevenZipDecompressor"] = {"chain": "list:stage", "_unpacked": "list:int", "_unpacksizes": "list:int", "consumed": "int",
                                     "input_size": "int", "block_size": "int", "_unused": "bytes", "_buf": "bytes", "_pos": "int",
                                     "digest": "int", "_delivered": "int"}
+# compressor.SevenZipCompressor: the attributes compress / flush touch
+CLASSES3["SevenZipCompressor"] = {"chain": "list:stage", "_unpacksizes": "list:int", "digest": "int", "packsize": "int", "_block_size": "int"}
 # HeaderStreamsInfo(StreamsInfo): the same three attributes (its __init__ fills two of them; it is not translated)
 CLASSES3["HeaderStreamsInfo"] = {"packinfo": "opt:PackInfo", "unpackinfo": "opt:UnpackInfo", "substreamsinfo": "opt:SubstreamsInfo"}
 CLASSES3["SignatureHeader"] = {"version": "tuple:bytes,bytes", "startheadercrc": "int", "nextheaderofs": "int",
@@ -320,6 +322,18 @@ _dec("SevenZipDecompressor._decompress", "objproc", "SevenZipDecompressor_decomp
 _dec("SevenZipDecompressor._read_data", "objreader", "SevenZipDecompressor_read_data", ret="bytes", retself=True, short_reads=True)
 _dec("SevenZipDecompressor.decompress", "objreader", "SevenZipDecompressor_decompress", args={"max_length": "int"}, ret="bytes",
      retself=True, short_reads=True, fuel=True)
+# stage 9: SevenZipCompressor.compress(fd, fp, crc) / flush(fp): fd is read block by block (it may return short reads: the read
+# schedule `sched`), what fp.write receives is collected in `out`; the elements of self.chain are abstract (cstep / cflush)
+def _comp(name, kind, coqname, **kw):
+    WAVE2[name] = dict(file="compressor.py", qual=name, kind=kind, cls="SevenZipCompressor", coqname=coqname, out="CompChain",
+                       noinit=True, **dict({"args": {}, "ret": None}, **kw))
+
+
+_comp("SevenZipCompressor", "record", "SevenZipCompressor")
+_comp("SevenZipCompressor.compress", "objreader", "SevenZipCompressor_compress", args={"crc": "int"}, ret="tuple:int,int,int",
+      retself=True, sched=True, outfile=True, fuel=True)
+_comp("SevenZipCompressor.flush", "objproc", "SevenZipCompressor_flush", ret="int", retself=True, outfile=True, fuel=True,
+      locals={"data": "optbytes"})
 # the descriptor of an encoded header
 _rec3("HeaderStreamsInfo", "record", "HeaderStreamsInfo", "HeaderStreamsInfo")
 _rec3("HeaderStreamsInfo.write", "objwriter", "HeaderStreamsInfo", "HeaderStreamsInfo_write", init_of="StreamsInfo")
@@ -337,8 +351,9 @@ _sig("SignatureHeader.retrieve", "retrieve", "SignatureHeader_retrieve", ret="Si
 _sig("SignatureHeader.write", "objwriter", "SignatureHeader_write", seek0=True)
 _sig("SignatureHeader._write_skeleton", "objwriter", "SignatureHeader_write_skeleton", seek0=True)
 
+REC_OUTS = ("ArchiveinfoRecords", "ArchiveinfoSig", "DecompChain", "CompChain")   # outs whose functions work on records of attributes
 for _k, _v in WAVE2.items():
-    if _v["out"] in ("ArchiveinfoRecords", "ArchiveinfoSig", "DecompChain"):
+    if _v["out"] in REC_OUTS:
         _v["join"] = True     # an `if` whose branches fall through is emitted once, yielding the variables it assigns
 OUT_FILES = {
     # out -> (source description, Require line[, lines opening a Section, line closing it])
@@ -367,6 +382,13 @@ OUT_FILES = {
                     "Section DecompChain.\nVariable stage : Type.                                   (* an element of self.chain *)\n"
                     "Variable dstep : stage -> bytes -> Z -> stage * bytes.   (* decompressor.decompress(data, max_length) *)\n"
                     "Variable zcrc32 : bytes -> Z -> Z.                       (* zlib.crc32(data, value) *)\n", "End DecompChain."),
+    # SevenZipCompressor: abstract stage encoders; fd.read may return short (sched: the most each successive read returns)
+    "CompChain": ("py7zr/compressor.py (class SevenZipCompressor: compress, flush)",
+                  "From P7 Require Import Prelude PyPrims PyStr PyRe.\nFrom P7gen Require HelpersCrc.",
+                  "Section CompChain.\nVariable stage : Type.                           (* an element of self.chain *)\n"
+                  "Variable cstep : stage -> bytes -> stage * bytes.   (* compressor.compress(data) *)\n"
+                  "Variable cflush : stage -> stage * bytes.           (* compressor.flush() *)\n"
+                  "Variable zcrc32 : bytes -> Z -> Z.                  (* zlib.crc32(data, value) *)\n", "End CompChain."),
     "HelpersCrc": ("py7zr/helpers.py (calculate_crc32)", "From P7 Require Import Prelude PyPrims PyStr.",
                    "Section HelpersCrc.\nVariable zcrc32 : bytes -> Z -> Z.   (* zlib.crc32(data, value) *)\n", "End HelpersCrc."),
 }
@@ -486,6 +508,8 @@ class FnTr:
         self.tmp = 0
         self.ty = dict(argtys)  # variable -> type
         self.filevar = None
+        self.outvar = None
+        self.narrowed = set()
         self.module = module    # ast of the module (for module-level constants); None for the first wave
         self.spec = spec or {}
         self.loops = []         # stack of enclosing for-loops: dict(ret=bool)
@@ -543,6 +567,8 @@ class FnTr:
                 if ic is not None:
                     return ic
                 self.refuse(e, "unknown name " + e.id)
+            if e.id in self.narrowed and self.ty[e.id] == "optbytes":
+                return self.unwrap([], e.id, "optbytes")       # known not to be None here (inside `if x:`)
             return [], e.id, self.ty[e.id]
         if isinstance(e, ast.Attribute) and self.module is not None:
             return self.attribute(e)
@@ -807,6 +833,8 @@ class FnTr:
             return "(match %s with Some l => py_nonempty l | None => false end)" % v
         if t == "optbool":
             return "(match %s with Some b => b | None => false end)" % v
+        if t == "optbytes" and self.spec.get("out") == "CompChain":
+            return "(match %s with Some b => py_nonempty b | None => false end)" % v
         self.refuse(e, "truth value of " + t)
 
     def test(self, e):
@@ -911,7 +939,7 @@ class FnTr:
                                                                            "    else Ok (%s, false)) [];" % acc]
             lines += ["let %s := %ss in" % (nm, nm)]
             return lines, nm, ("boollist" if te == "bool" else "list:" + te)
-        if g.ifs and self.spec.get("out") in ("ArchiveinfoRecords", "ArchiveinfoSig", "DecompChain") and isinstance(g.target, ast.Name) and g.target.id not in self.ty \
+        if g.ifs and self.spec.get("out") in REC_OUTS and isinstance(g.target, ast.Name) and g.target.id not in self.ty \
                 and not self.has_io(e):
             # [elt for x in L if cond]
             p, v, t = self.expr(it)
@@ -930,7 +958,7 @@ class FnTr:
             return lines, nm, ("boollist" if te == "bool" else "list:" + te)
         if g.ifs:
             self.refuse(e, "comprehension filter")
-        if isinstance(e.elt, ast.Dict) and self.spec.get("out") in ("ArchiveinfoRecords", "ArchiveinfoSig", "DecompChain") and isinstance(it, ast.Call) \
+        if isinstance(e.elt, ast.Dict) and self.spec.get("out") in REC_OUTS and isinstance(it, ast.Call) \
                 and isinstance(it.func, ast.Name) and it.func.id == "range" and len(it.args) == 1 and "range" not in self.local_names() \
                 and isinstance(g.target, ast.Name) and all(isinstance(k, ast.Constant) and isinstance(k.value, str) for k in e.elt.keys) \
                 and all(isinstance(v, ast.Constant) for v in e.elt.values):
@@ -1023,7 +1051,7 @@ class FnTr:
         self.refuse(e, "binop %s on %s,%s" % (type(op).__name__, tl, tr))
 
     def compare(self, e):
-        if len(e.ops) == 2 and self.spec.get("out") in ("ArchiveinfoRecords", "ArchiveinfoSig", "DecompChain") and isinstance(e.comparators[0], (ast.Name, ast.Constant)):
+        if len(e.ops) == 2 and self.spec.get("out") in REC_OUTS and isinstance(e.comparators[0], (ast.Name, ast.Constant)):
             # a OP b OP c = (a OP b) and (b OP c); b is a name / constant: evaluating it twice is evaluating it once
             pa, va, ta = self.compare(ast.copy_location(ast.Compare(left=e.left, ops=[e.ops[0]], comparators=[e.comparators[0]]), e))
             pb, vb, tb = self.compare(ast.copy_location(ast.Compare(left=e.comparators[0], ops=[e.ops[1]], comparators=[e.comparators[1]]), e))
@@ -1044,7 +1072,7 @@ class FnTr:
         pr, r, tr = self.expr(e.comparators[0])
         if isinstance(e.ops[0], (ast.Is, ast.IsNot)) and tr == "nonetype" and tl == "optstr":
             return pl, ("(negb (py_is_some %s))" if isinstance(e.ops[0], ast.Is) else "(py_is_some %s)") % l, "bool"
-        if isinstance(e.ops[0], (ast.Is, ast.IsNot)) and tr == "nonetype" and (self.fields or self.spec.get("out") in ("ArchiveinfoRecords", "ArchiveinfoSig", "DecompChain")) \
+        if isinstance(e.ops[0], (ast.Is, ast.IsNot)) and tr == "nonetype" and (self.fields or self.spec.get("out") in REC_OUTS) \
                 and not pl and (tl in ("int", "bool", "bytes", "list:int", "boollist") or tl.startswith("list:")):
             # a record field / value of a non-optional type is never None
             return [], ("false" if isinstance(e.ops[0], ast.Is) else "true"), "bool"
@@ -1172,7 +1200,7 @@ class FnTr:
             finally:
                 self.filevar = old
             return [_re.sub(r"\binp\b", sub, x) for x in p], v, t
-        if self.spec.get("out") in ("ArchiveinfoSig", "DecompChain"):
+        if self.spec.get("out") in ("ArchiveinfoSig", "DecompChain", "CompChain"):
             # a local io.BytesIO() that is only written to: the variable holds what has been written
             if isinstance(f, ast.Attribute) and isinstance(f.value, ast.Name) and self.ty.get(f.value.id) == "wbuf" \
                     and f.attr == "getvalue" and not args and not e.keywords:
@@ -1290,6 +1318,8 @@ class FnTr:
                     if len(self._short_read_nodes) > 1:
                         self.refuse(e, "a second read in a method whose file may return short reads")
                     return p + ["let '(%s, inp) := py_read_short inp %s rd in" % (t1, n)], t1, "bytes"
+                if self.spec.get("sched"):
+                    return p + ["let '(%s, inp, sched) := py_read_sched inp %s sched in" % (t1, n)], t1, "bytes"
                 return p + ["let '(%s, inp) := rd_read inp %s in" % (t1, n)], t1, "bytes"
             self.refuse(e, "file method " + f.attr)
         if isinstance(f, ast.Attribute):
@@ -1355,7 +1385,7 @@ class FnTr:
             if ta != "int" or tb != "int":
                 self.refuse(e, "min() argument types")
             return pa + pb, "(Z.min %s %s)" % (va, vb), "int"
-        if fn == "any" and self.spec.get("out") in ("ArchiveinfoRecords", "ArchiveinfoSig", "DecompChain") and len(args) == 1 and not e.keywords \
+        if fn == "any" and self.spec.get("out") in REC_OUTS and len(args) == 1 and not e.keywords \
                 and isinstance(args[0], ast.GeneratorExp) and "any" not in self.local_names():
             ge = args[0]
             g = ge.generators[0]
@@ -1372,7 +1402,7 @@ class FnTr:
             return p, "(existsb (fun %s => %s) %s)" % (g.target.id, c, v), "bool"
         if fn == "iter" and self.module is not None and len(args) == 1 and not e.keywords and "iter" not in self.local_names():
             p, v, t = self.expr(args[0])
-            if t == "boollist" and self.spec.get("out") in ("ArchiveinfoRecords", "ArchiveinfoSig", "DecompChain"):
+            if t == "boollist" and self.spec.get("out") in REC_OUTS:
                 return p, v, "iter:bool"
             if t != "list:int":
                 self.refuse(e, "iter() of " + t)
@@ -1483,7 +1513,7 @@ class FnTr:
                 p, v, t = self.expr(a)
                 if self.module is not None and t == "optbytes" and at == "bytes":
                     p, v, t = self.unwrap(p, v, t)
-                if self.spec.get("out") in ("ArchiveinfoRecords", "ArchiveinfoSig", "DecompChain") and t == "optint" and at == "int":
+                if self.spec.get("out") in REC_OUTS and t == "optint" and at == "int":
                     p, v, t = self.unwrap(p, v, t)      # None where a number is packed: struct.error / TypeError
                 if t != at:
                     self.refuse(e, "argument type of %s.%s" % (fn, an))
@@ -1598,7 +1628,7 @@ class FnTr:
                 pre += p
                 vs.append(v)
             return pre, "(%s %s)" % (fn, " ".join(vs)), rt
-        if isinstance(f.value, ast.Name) and f.value.id == "self" and self.spec.get("out") in ("ArchiveinfoRecords", "ArchiveinfoSig", "DecompChain"):
+        if isinstance(f.value, ast.Name) and f.value.id == "self" and self.spec.get("out") in REC_OUTS:
             return self.selfcall3(e)
         if isinstance(f.value, ast.Name) and f.value.id == "self" and self.kind == "method":
             return self.selfcall(e)
@@ -1686,7 +1716,7 @@ class FnTr:
                 self.refuse(e, "relative_to argument type " + ta)
             t1 = self.fresh()
             return p + pa + ["do %s <- pp_relative_to %s %s;" % (t1, v, a)], t1, "path"       # ValueError when not below
-        if self.spec.get("out") in ("ArchiveinfoRecords", "ArchiveinfoSig", "DecompChain") and len(args) == 1 and isinstance(args[0], ast.Constant) \
+        if self.spec.get("out") in REC_OUTS and len(args) == 1 and isinstance(args[0], ast.Constant) \
                 and args[0].value == "utf-16LE" and not e.keywords:
             t1 = self.fresh()
             if t == "bytes" and f.attr == "decode":
@@ -1695,7 +1725,7 @@ class FnTr:
                 return p + ["do %s <- py_encode_utf16le_char %s;" % (t1, v)], t1, "bytes"
             if t == "str" and f.attr == "encode":
                 return p + ["do %s <- py_encode_utf16le %s;" % (t1, v)], t1, "bytes"
-        if self.spec.get("out") in ("ArchiveinfoRecords", "ArchiveinfoSig", "DecompChain") and t == "str" and f.attr == "replace" and len(args) == 2 and not e.keywords \
+        if self.spec.get("out") in REC_OUTS and t == "str" and f.attr == "replace" and len(args) == 2 and not e.keywords \
                 and all(isinstance(a, ast.Constant) and isinstance(a.value, str) and len(a.value) == 1 for a in args):
             return p, "(py_replace_char %s %d %d)" % (v, ord(args[0].value), ord(args[1].value)), "str"
         if t == "stage" and f.attr == "decompress" and len(args) == 2 and not e.keywords and isinstance(f.value, ast.Name) \
@@ -1710,6 +1740,20 @@ class FnTr:
             t1 = self.fresh()
             return p + pa + pb + ["let '(%ss, %s) := dstep %s %s %s in" % (t1, t1, v, va, vb),
                                   "do %s <- py_setitem %s %s %ss;" % (lst, lst, idx, t1)], t1, "bytes"
+        if t == "stage" and f.attr in ("compress", "flush") and not e.keywords and isinstance(f.value, ast.Name) \
+                and f.value.id in getattr(self, "enum_ctx", {}) and self.spec.get("out") == "CompChain" and len(args) == (1 if f.attr == "compress" else 0):
+            # compressor.compress(data) / compressor.flush() on the i-th element of self.chain: the abstract calls; the element is an
+            # object that changes in place: the list holds the new state at index i, and so does the loop variable from here on
+            idx, lst = self.enum_ctx[f.value.id]
+            pa, va = [], ""
+            if args:
+                pa, va, ta = self.expr(args[0])
+                if ta != "bytes":
+                    self.refuse(e, "argument type of a stage's compress: " + ta)
+            t1 = self.fresh()
+            call = "cstep %s %s" % (v, va) if args else "cflush %s" % v
+            return p + pa + ["let '(%ss, %s) := %s in" % (t1, t1, call), "do %s <- py_setitem %s %s %ss;" % (lst, lst, idx, t1),
+                             "let %s := %ss in" % (f.value.id, t1)], t1, "bytes"
         self.refuse(e, "method %s of %s" % (f.attr, t))
 
     def class_node(self):
@@ -2056,6 +2100,16 @@ class FnTr:
             if isinstance(st, ast.Attribute) and isinstance(st.ctx, ast.Store) and isinstance(st.value, ast.Name) \
                     and st.value.id == "self" and self.fields:
                 add("self_" + st.attr)
+            if isinstance(st, ast.Call) and isinstance(st.func, ast.Attribute) and isinstance(st.func.value, ast.Name) and self.outvar is not None \
+                    and st.func.value.id == self.outvar:
+                add("out")
+            if isinstance(st, ast.Call) and isinstance(st.func, ast.Attribute) and self.is_file(st.func.value) and self.spec.get("sched"):
+                add("inp")
+                add("sched")
+            if isinstance(st, ast.Call) and isinstance(st.func, ast.Attribute) and st.func.attr in ("compress", "flush") \
+                    and isinstance(st.func.value, ast.Name) and self.spec.get("out") == "CompChain" and self.fields \
+                    and "chain" in self.fields and st.func.value.id != "self":
+                add("self_chain")
             if isinstance(st, ast.Call) and isinstance(st.func, ast.Attribute) and isinstance(st.func.value, ast.Name) \
                     and st.func.value.id == "self" and self.fields and self.module is not None:
                 sp = WAVE2.get("%s.%s" % (self.spec.get("cls"), st.func.attr))
@@ -2070,12 +2124,12 @@ class FnTr:
                     and isinstance(st.args[0], ast.Name) and self.module is not None:
                 add(st.args[0].id)
             if isinstance(st, ast.Call) and self.module is not None and isinstance(st.func, ast.Attribute) \
-                    and st.func.attr in ("retrieve", "write", "_read", "read") and self.io and self.spec.get("out") in ("ArchiveinfoRecords", "ArchiveinfoSig", "DecompChain") \
+                    and st.func.attr in ("retrieve", "write", "_read", "read") and self.io and self.spec.get("out") in REC_OUTS \
                     and any(self.is_file(a) for a in st.args):
                 add(self.io)
             if isinstance(st, ast.Call) and self.module is not None and isinstance(st.func, ast.Attribute) \
                     and isinstance(st.func.value, ast.Name) and st.func.value.id == "self" and self.io \
-                    and self.spec.get("out") in ("ArchiveinfoRecords", "ArchiveinfoSig", "DecompChain") and any(self.is_file(a) for a in st.args):
+                    and self.spec.get("out") in REC_OUTS and any(self.is_file(a) for a in st.args):
                 add(self.io)      # self.m(file, ..): a method of the class that reads / writes the file
             if isinstance(st, ast.Call) and self.module is not None and isinstance(st.func, ast.Attribute) and st.func.attr == "write" \
                     and self.fields and self.io == "out":
@@ -2102,6 +2156,10 @@ class FnTr:
         if self.loops:
             self.loops[-1]["ret"] = True
             return ["RETURN " + val]
+        if self.spec.get("retself") and self.kind == "objreader" and self.spec.get("outfile"):
+            return ["Ok (((%s, %s), inp), out)" % (self.self_record(), val)]
+        if self.spec.get("retself") and self.kind == "objproc" and self.spec.get("outfile"):
+            return ["Ok ((%s, %s), out)" % (self.self_record(), val)]
         if self.spec.get("retself") and self.kind == "objreader":
             return ["Ok ((%s, %s), inp)" % (self.self_record(), val)]
         if self.spec.get("retself") and self.kind == "objproc":
@@ -2191,7 +2249,7 @@ class FnTr:
             # `x: list[str] = []`
             ann = ast.unparse(st.annotation).replace("List", "list")
             if isinstance(st.target, ast.Name) and ann == "list[bool]" and isinstance(st.value, ast.List) and not st.value.elts \
-                    and self.spec.get("out") in ("ArchiveinfoRecords", "ArchiveinfoSig", "DecompChain"):
+                    and self.spec.get("out") in REC_OUTS:
                 self.ty[st.target.id] = "boollist"
                 return ["let %s : list bool := [] in" % st.target.id] + cont()
             if not (isinstance(st.target, ast.Name) and ann == "list[str]" and isinstance(st.value, ast.List)
@@ -2219,7 +2277,7 @@ class FnTr:
                 and self.is_module("io") and not st.value.args and not st.value.keywords and st.targets[0].id not in self.ty:
             self.ty[st.targets[0].id] = "wbuf"
             return ["let %s : bytes := [] in" % st.targets[0].id] + cont()
-        if isinstance(st, ast.Assign) and self.spec.get("out") in ("ArchiveinfoRecords", "ArchiveinfoSig", "DecompChain") and len(st.targets) == 1 \
+        if isinstance(st, ast.Assign) and self.spec.get("out") in REC_OUTS and len(st.targets) == 1 \
                 and isinstance(st.targets[0], ast.Name) and isinstance(st.value, ast.Call) and self.dotted(st.value.func) == "io.BytesIO" \
                 and self.is_module("io") and len(st.value.args) == 1 and not st.value.keywords and self.io == "inp" \
                 and st.targets[0].id != self.filevar and self.ty.get(st.targets[0].id, "filebuf") == "filebuf":
@@ -2233,6 +2291,8 @@ class FnTr:
                 self.refuse(st, "multi-target assign")
             tg = st.targets[0]
             p, v, t = self.expr(st.value)
+            if isinstance(tg, ast.Name) and tg.id in self.narrowed and t != "bytes":
+                self.narrowed.discard(tg.id)
             if isinstance(tg, ast.Name) and (tg.id in self.decl or (tg.id.startswith("self_") and tg.id[5:] in self.fields)):
                 ft = self.decl[tg.id] if tg.id in self.decl else self.fields[tg.id[5:]]
                 if ft == "optlist:int" and isinstance(st.value, ast.List) and not st.value.elts:
@@ -2273,9 +2333,11 @@ class FnTr:
             ast.copy_location(fake, st)
             if isinstance(tg, ast.Name):
                 p, v, t = self.expr(ast.BinOp(left=ast.Name(id=tg.id, ctx=ast.Load()), op=st.op, right=st.value))
+                if tg.id in self.decl:
+                    v, t = self.coerce(st, v, t, self.decl[tg.id])
                 return p + ["let %s := %s in" % (tg.id, v)] + cont()
             if isinstance(tg, ast.Subscript) and isinstance(tg.value, ast.Name) and (
-                    self.ty.get(tg.value.id) == "bytes" or (self.ty.get(tg.value.id) == "list:int" and self.spec.get("out") == "DecompChain")):
+                    self.ty.get(tg.value.id) == "bytes" or (self.ty.get(tg.value.id) == "list:int" and self.spec.get("out") in ("DecompChain", "CompChain"))):
                 arr = tg.value.id
                 pi, i, ti = self.expr(tg.slice)
                 t0 = self.fresh()
@@ -2285,7 +2347,7 @@ class FnTr:
                 return pi + ["do %s <- py_index %s %s;" % (t0, arr, i)] + p + \
                     ["do %s <- py_setitem %s %s %s;" % (arr, arr, i, v)] + cont()
             self.refuse(st, "augassign target")
-        if isinstance(st, ast.Expr) and self.spec.get("out") in ("ArchiveinfoRecords", "ArchiveinfoSig", "DecompChain") and isinstance(st.value, ast.Call) \
+        if isinstance(st, ast.Expr) and self.spec.get("out") in REC_OUTS and isinstance(st.value, ast.Call) \
                 and isinstance(st.value.func, ast.Name) and st.value.func.id == "list" and "list" not in self.local_names() \
                 and "map" not in self.local_names() and len(st.value.args) == 1 and not st.value.keywords \
                 and isinstance(st.value.args[0], ast.Call) and isinstance(st.value.args[0].func, ast.Name) \
@@ -2329,6 +2391,13 @@ class FnTr:
                         return ["let %s : bytes := [] in" % sv] + cont()
                 self.refuse(st, "method self.%s.%s" % (c.func.value.attr, c.func.attr))
             if isinstance(c, ast.Call) and isinstance(c.func, ast.Attribute):
+                if self.outvar is not None and isinstance(c.func.value, ast.Name) and c.func.value.id == self.outvar:
+                    if not (c.func.attr == "write" and len(c.args) == 1 and not c.keywords):
+                        self.refuse(st, "method %s of the output file" % c.func.attr)
+                    p, v, t = self.expr(c.args[0])
+                    if t != "bytes":
+                        self.refuse(st, "write of non-bytes")
+                    return p + ["let out := out ++ %s in" % v] + cont()
                 if self.is_file(c.func.value) and c.func.attr == "write" and self.io == "out" and len(c.args) == 1:
                     p, v, t = self.expr(c.args[0])
                     if t != "bytes":
@@ -2358,12 +2427,12 @@ class FnTr:
         if isinstance(st, ast.If) and self.module is not None and isinstance(st.test, ast.Compare) \
                 and len(st.test.ops) == 1 and isinstance(st.test.ops[0], (ast.Is, ast.IsNot)) \
                 and isinstance(st.test.comparators[0], ast.Constant) and st.test.comparators[0].value is None \
-                and not (self.spec.get("out") in ("ArchiveinfoRecords", "ArchiveinfoSig", "DecompChain")):
+                and not (self.spec.get("out") in REC_OUTS and self.spec.get("out") != "CompChain"):
             # `if x is None:` / `if x is not None:` on an Optional[int] variable: a match that rebinds x as the int
             x = st.test.left
-            if not (isinstance(x, ast.Name) and self.ty.get(x.id) in ("optint", "optmatch2", "optpath")):
+            if not (isinstance(x, ast.Name) and self.ty.get(x.id) in ("optint", "optmatch2", "optpath", "optbytes")):
                 self.refuse(st, "`is None` test on something that is not an Optional variable")
-            inner = {"optint": "int", "optmatch2": "match2", "optpath": "path"}[self.ty[x.id]]
+            inner = {"optint": "int", "optmatch2": "match2", "optpath": "path", "optbytes": "bytes"}[self.ty[x.id]]
             none_body, some_body = (st.body, st.orelse) if isinstance(st.test.ops[0], ast.Is) else (st.orelse, st.body)
             saved = dict(self.ty)
             a = self.block(none_body, cont)
@@ -2373,6 +2442,20 @@ class FnTr:
             self.ty = dict(saved)
             return ["match %s with" % x.id, "| None =>"] + ["  " + y for y in a] + ["| Some %s =>" % x.id] + \
                 ["  " + y for y in b] + ["end"]
+        if isinstance(st, ast.If) and self.spec.get("out") == "CompChain" and isinstance(st.test, ast.Name) \
+                and self.ty.get(st.test.id) == "optbytes" and st.test.id not in self.narrowed:
+            # `if x:` on an Optional[bytes] variable: in the first branch x is a (non-empty) bytes object
+            p, c = self.test(st.test)
+            saved = dict(self.ty)
+            self.narrowed.add(st.test.id)
+            try:
+                a = self.try_block(st.body, cont)
+            finally:
+                self.narrowed.discard(st.test.id)
+            self.ty = dict(saved)
+            b = self.try_block(st.orelse, cont)
+            self.ty = dict(saved)
+            return p + ["if %s then" % c] + ["  " + x for x in a] + ["else"] + b
         if isinstance(st, ast.If) and self.spec.get("join") and rest and not any(
                 isinstance(n, (ast.Return, ast.Break, ast.Continue)) for n in ast.walk(st)):
             # both branches fall through (or raise): the statement is an expression that yields the variables it assigns,
@@ -2429,7 +2512,7 @@ class FnTr:
             for kx, vx in ty_a.items():
                 self.ty.setdefault(kx, vx)
             return p + ["if %s then" % c] + ["  " + x for x in a] + ["else"] + b
-        if isinstance(st, ast.Raise) and self.module is not None and (not self.loops or self.spec.get("out") in ("ArchiveinfoRecords", "ArchiveinfoSig", "DecompChain")):
+        if isinstance(st, ast.Raise) and self.module is not None and (not self.loops or self.spec.get("out") in REC_OUTS):
             # raise E(...) : the function ends with Err (the arguments of the exception are not evaluated here: they must
             # be effect-free names / constants)
             x = st.exc
@@ -2723,7 +2806,8 @@ class FnTr:
             self.refuse(st, "while")
         if any(isinstance(n, ast.Return) for n in ast.walk(ast.Module(body=st.body, type_ignores=[]))):
             self.refuse(st, "return inside while")
-        state = [v for v in self.assigned(st.body) if v in self.ty or (v in ("inp", "out") and self.spec.get("out") in ("ArchiveinfoRecords", "ArchiveinfoSig", "DecompChain"))]
+        state = [v for v in self.assigned(st.body) if v in self.ty or (v in ("inp", "out") and self.spec.get("out") in REC_OUTS)
+                 or (v == "sched" and self.spec.get("sched"))]
         if not state:
             self.refuse(st, "loop without state")
         pc, c = self.test(st.test)
@@ -2787,7 +2871,7 @@ class FnTr:
                 pre, xs, elty = p, v, t[5:]
             elif t == "boollist":
                 pre, xs, elty = p, v, "bool"
-            elif t == "str" and self.spec.get("out") in ("ArchiveinfoRecords", "ArchiveinfoSig", "DecompChain"):
+            elif t == "str" and self.spec.get("out") in REC_OUTS:
                 pre, xs, elty = p, v, "char"
             else:
                 self.refuse(st, "iteration over " + t)
@@ -2887,6 +2971,12 @@ class FnTr:
             if not params or params[0] != "self":
                 self.refuse(node, "method signature")
             params = params[1:]
+            if self.spec.get("outfile"):
+                # the first parameter is a file that is only written to: what it receives is collected in `out`
+                if not params:
+                    self.refuse(node, "method signature")
+                self.outvar = params[0]
+                params = params[1:]
         if self.kind == "classinit":
             if not params or params[0] != "cls" or [ast.unparse(d) for d in node.decorator_list] != ["classmethod"]:
                 self.refuse(node, "classmethod signature")
@@ -2896,6 +2986,14 @@ class FnTr:
                 self.refuse(node, "method signature")
             self.filevar = params[1]
             params = params[2:]
+            if self.spec.get("outfile"):
+                # the parameter after the file that is read is a file that is only written to: what it receives is collected in `out`
+                if self.kind != "objreader" or not params:
+                    self.refuse(node, "method signature")
+                self.outvar = params[0]
+                params = params[1:]
+        if self.spec.get("out") == "CompChain":
+            self.decl.update(self.spec.get("locals", {}))     # declared types of locals that hold None or a value
         if self.kind in ("objreader", "objwriter", "objfun", "objproc"):
             for n in self.local_names():
                 if n.startswith("self_") or n in ("inp", "out"):
@@ -2966,6 +3064,9 @@ class FnTr:
             rt = cls if self.kind != "objfun" else coq_ty(self.retty)
             if self.spec.get("retself"):
                 rt = "(%s * %s)" % (cls, coq_ty(self.retty))
+            if self.spec.get("outfile"):
+                rt = "(%s * bytes)" % rt
+                unpack += "\n  let out : bytes := [] in"
             head = "Definition %s %s%s : res %s :=\n%s" % (
                 self.spec["coqname"], "(self : %s) " % cls if self.kind != "classinit" else "", sig,
                 "(%s)" % rt if " " in rt and not rt.startswith("(") else rt, unpack)
@@ -2983,8 +3084,18 @@ class FnTr:
                     if "rd" in self.ty or "rd" in self.local_names():
                         self.refuse(node, "a variable named rd")
                     sig = (sig + " (rd : nat)").strip()
-                head = "Definition %s (self : %s) (inp : bytes) %s : res (%s * bytes) :=\n%s" % (
-                    self.spec["coqname"], cls, sig, rt, unpack)
+                if self.spec.get("sched"):
+                    # the file may return fewer bytes than asked for: sched = the most each successive read returns
+                    if "sched" in self.ty or "sched" in self.local_names():
+                        self.refuse(node, "a variable named sched")
+                    sig = (sig + " (sched : list nat)").strip()
+                if self.spec.get("outfile"):
+                    rt = "((%s * bytes) * bytes)" % rt
+                    unpack += "\n  let out : bytes := [] in"
+                    head = "Definition %s (self : %s) (inp : bytes) %s : res %s :=\n%s" % (self.spec["coqname"], cls, sig, rt, unpack)
+                else:
+                    head = "Definition %s (self : %s) (inp : bytes) %s : res (%s * bytes) :=\n%s" % (
+                        self.spec["coqname"], cls, sig, rt, unpack)
             else:
                 head = "Definition %s (self : %s) %s : res %s :=\n%s\n  let out : bytes := [] in" % (
                     self.spec["coqname"], cls, sig, "(%s * bytes)" % cls if self.spec.get("mutates") else "bytes", unpack)
@@ -2998,7 +3109,7 @@ class FnTr:
                 rt = "(%s * (%s))" % (rt, " * ".join(coq_ty(t) for _, t in self.spec["state"].values()))
             head = "Definition %s %s : res %s :=" % (self.spec.get("coqname", self.name.split(".")[-1]), sig,
                                                      "(%s)" % rt if " " in rt and not rt.startswith("(") else rt)
-        stmts = self.lower(node.body) if self.module is not None and self.spec.get("out") in ("ArchiveinfoRecords", "ArchiveinfoSig", "DecompChain") \
+        stmts = self.lower(node.body) if self.module is not None and self.spec.get("out") in REC_OUTS \
             and self.kind in ("objreader", "objwriter", "method", "objfun", "objproc", "classinit") else node.body
         if self.kind == "classinit":
             # obj = cls() ; ... obj.x ... ; return obj   ==   the same method body on a fresh object called self
